@@ -65,6 +65,8 @@ CFG = {
         "Swat4.C03.ofFilter_toFilter",
         "Swat4.C03.browser_listing_parsed",
         "Swat4.C03.browser_listing_any",
+        "Swat4.C03.facts_frontend_status",
+        "Swat4.C03.facts_frontend_liveness",
     ],
     "shards": (1, 16),
     "nontrivial": _c03_nontrivial,
